@@ -158,6 +158,16 @@ func (g *gctx) scalar() (string, string) {
 	if len(g.enums) > 0 && r.pct(12) {
 		return r.pick([]string{`"a.b"`, `1`, `"x"`, `"red"`, `true`}), `{enum: ` + r.pick(g.enums) + `}`
 	}
+	if r.pct(5) {
+		// an empty container on one line, possibly annotated as "may be something
+		// else": accepted by Check(), but Example() has nothing to build it from
+		alt := `{type: "array"}`
+		if len(g.names) > 0 && r.pct(40) {
+			alt = `{type: "` + r.pick(g.names) + `"}`
+		}
+		return r.pick([]string{`{}`, `[]`}), r.pick([]string{``, `{or: [{type: "object"}, ` + alt + `]}`, `{or: [` + alt + `, {type: "string"}]}`,
+			`{type: "object"}`, `{type: "array"}`, `{type: "any"}`, `{additionalProperties: true}`, `{minItems: 0}`, `{optional: true}`})
+	}
 	if r.pct(9) {
 		return r.pick([]string{`"abc"`, `1`, `"x"`, `12.5`, `true`}), r.pick(badRules)
 	}
@@ -301,6 +311,14 @@ func (g *gctx) object(ind string) string {
 		} else {
 			head = ` // {allOf: ["` + r.pick(g.names) + `", "` + r.pick(g.names) + `"]}`
 		}
+	} else if r.pct(8) {
+		// a container whose annotation says it may be something else: accepted, but
+		// it has no example of its own (Example() fails where Check() passes)
+		alt := `{type: "array"}`
+		if len(g.names) > 0 && r.pct(50) {
+			alt = `{type: "` + r.pick(g.names) + `"}`
+		}
+		head = r.pick([]string{` // {or: [{type: "object"}, ` + alt + `]}`, ` // {or: [` + alt + `, {type: "object"}]}`, ` // {type: "object"}`, ` // {type: "mixed"}`, ` // {type: "any"}`})
 	} else if r.pct(10) {
 		head = r.pick([]string{` // {additionalProperties: true}`, ` // {additionalProperties: "string"}`, ` // {additionalProperties: false}`, ` // {nullable: true}`})
 	} else if len(g.names) > 0 && r.pct(8) {
@@ -339,6 +357,8 @@ func (g *gctx) array(ind string) string {
 	head := ""
 	if r.pct(20) {
 		head = r.pick([]string{` // {minItems: 0}`, ` // {maxItems: 10}`, ` // {minItems: 1, maxItems: 5}`})
+	} else if r.pct(8) {
+		head = r.pick([]string{` // {or: [{type: "array"}, {type: "object"}]}`, ` // {or: [{type: "array"}, {type: "string"}]}`, ` // {type: "array"}`, ` // {type: "any"}`})
 	}
 	sb.WriteString("[" + head + "\n")
 	n := r.n(3)
@@ -785,8 +805,8 @@ func genProject(r *rng, tornPct int) Project {
 		}
 		for _, name := range refs {
 			if isEnumRef(name) {
-				if !r.pct(8) {
-					p.Rules = append(p.Rules, RuleSpec{Name: name, Text: r.pick(corpus.Enum)})
+				if !r.pct(15) {
+					p.Rules = append(p.Rules, RuleSpec{Name: name, Text: pickEnum(r)})
 				}
 				continue
 			}
@@ -806,6 +826,15 @@ func genProject(r *rng, tornPct int) Project {
 		}
 		if r.pct(12) {
 			p.Rules = append(p.Rules, RuleSpec{Name: "@unused", Text: pickEnum(r)})
+		}
+		if len(enums) > 0 && r.pct(35) {
+			// further registered rules with names close to the referenced ones (a
+			// reference may be missing: which registered rule is "the nearest"?)
+			for _, name := range []string{"@en3", "@en1", "@e", "@enn"}[:1+r.n(4)] {
+				if !isEnumRef(name) {
+					p.Rules = append(p.Rules, RuleSpec{Name: name, Text: pickEnum(r)})
+				}
+			}
 		}
 	}
 	switch {
@@ -990,6 +1019,10 @@ func swarmCfg(r *rng, prop string) RunCfg {
 		// repetitions (the library reads none today; a change may)
 		c.ClockVaryPct = []int{5, 30, 80}[r.n(3)]
 	}
+	// Usually a run starts with empty pools (a garbage collection between two
+	// histories); sometimes the pools keep what the process's earlier runs left in
+	// them. A violation that needs that is found again through the worker's run range.
+	c.KeepPools = r.pct(30)
 	if prop == "C09" {
 		c.CPUVary = r.pct(50)
 		c.RandVary = r.pct(70)
